@@ -336,13 +336,24 @@ class Case:
                 self.dead = True
                 self.res.count("abandoned:state-diverged")
                 return
-            self.register(K)
+            o = self.register(K)
             self.script.add(f"env snap {self.name}", self.snap_real(), self.ctx())
             self.res.evaluations += 1
             try:
                 self.rewards_seen.add(float(env.reward))
             except Exception:
                 pass
+            if self.prop == "C08" and o["berr"] is None and o["gerr"] is None:
+                # C08 at environment level: whatever order of reveals and un-reveals led here, bounds and reward are those
+                # of a fresh game holding the same knowledge
+                lo, hi = fl(ig.get_lower_bounds()), fl(ig.get_upper_bounds())
+                try:
+                    r = float(env.reward)
+                except Exception:
+                    r = None
+                if lo != o["L"] or hi != o["U"] or (r is not None and r != -o["gap"]):
+                    self.violate(f"after {after}: bounds / reward depend on the order of reveals and un-reveals (≠ freshly recomputed "
+                                 "bounds for the same knowledge)", "history", {"reward": r, "expected": -o["gap"]})
             return
         o = self.register(K)
         self.script.add(f"env snap {self.name}", self.snap_real(), self.ctx())
